@@ -469,6 +469,9 @@ impl<B: StarkField + ExtensibleField<2> + ExtensibleField<3>> Air for GenAir<B> 
     ) {
         let cur = frame.current();
         let next = frame.next();
+        if cur.len() != self.spec.main_width || next.len() != self.spec.main_width || result.len() != self.spec.main_width {
+            panic!("AIR-CONTRACT: main evaluation frame of width {} / {} and {} result slots handed to an AIR with {} main columns", cur.len(), next.len(), result.len(), self.spec.main_width);
+        }
         for j in 0..self.spec.main_width {
             result[j] = next[j] - self.spec.next_value(j, cur, periodic_values);
         }
@@ -512,6 +515,21 @@ impl<B: StarkField + ExtensibleField<2> + ExtensibleField<3>> Air for GenAir<B> 
         E: FieldElement<BaseField = B> + ExtensionOf<F>,
     {
         let rands = aux_rand_elements.rand_elements();
+        if aux_frame.current().len() != self.spec.aux_width
+            || aux_frame.next().len() != self.spec.aux_width
+            || main_frame.current().len() != self.spec.main_width
+            || result.len() != self.spec.aux_width
+        {
+            panic!(
+                "AIR-CONTRACT: auxiliary evaluation frame of width {} / {}, main frame of width {} and {} result slots handed to an AIR with {} main and {} auxiliary columns",
+                aux_frame.current().len(),
+                aux_frame.next().len(),
+                main_frame.current().len(),
+                result.len(),
+                self.spec.main_width,
+                self.spec.aux_width
+            );
+        }
         for i in 0..self.spec.aux_width {
             result[i] = aux_frame.next()[i]
                 - self.spec.aux_next_value(i, main_frame.current(), aux_frame.current(), rands);
